@@ -97,7 +97,7 @@ func runC21DB(c *CaseCtx) {
 	class := "codec-db-" + []string{"keyval", "keyonly", "sparse"}[cfg.Mode]
 	u := &Universe{Buckets: []string{"bk"}}
 	for i := 0; i < 6+r.Intn(8); i++ {
-		u.KVKeys = append(u.KVKeys, []byte(fmt.Sprintf("k%02d", i)))
+		u.KVKeys = append(u.KVKeys, []byte(fmt.Sprintf("k%02d%s", i, strings.Repeat("-long", i%4))))
 	}
 	dir := c.Dir("db")
 	mon := NewFSMon(dir)
@@ -150,6 +150,9 @@ func runC21DB(c *CaseCtx) {
 	}
 	mon.Uninstall()
 	c.Log("cfg %s keys=%d transactions=%d", cfg, len(u.KVKeys), ntx)
+	if cfg.Mode == 2 {
+		checkRootIdxFiles(c, db, dir, class)
+	}
 	// where the records are: every write event on a data segment is one encoded record
 	type rec struct {
 		path string
@@ -277,4 +280,30 @@ func runC21DB(c *CaseCtx) {
 		c.Sample(map[string]interface{}{"kind": "database-level", "config": cfg.String(), "records_on_disk": len(recs), "files": len(targets)})
 	}
 	_ = ioutil.Discard
+}
+
+// checkRootIdxFiles compares every sealed segment's root-index record as the running sparse database holds it in
+// memory with what the file bpt/root/<fid>.bptridx decodes to: "every record the library writes decodes to exactly
+// the fields that were written".
+func checkRootIdxFiles(c *CaseCtx, db *nutsdb.DB, dir, class string) {
+	for _, want := range db.VerifRootIdxes() {
+		p := filepath.Join(dir, "bpt", "root", fmt.Sprintf("%d.bptridx", want.FID))
+		fd, err := os.Open(p)
+		if err != nil {
+			c.Violate("root-index-file-missing", class, fmt.Sprintf("the root-index record of segment %d is held in memory but %s cannot be opened: %v", want.FID, p, err))
+			continue
+		}
+		rec, err := nutsdb.ReadBPTreeRootIdxAt(fd, 0)
+		fd.Close()
+		c.Stat("root_index_files_compared", 1)
+		if err != nil || rec == nil {
+			c.Violate("root-index-file-unreadable", class, fmt.Sprintf("the stored root-index record of segment %d does not read back: %v", want.FID, err))
+			continue
+		}
+		got := rec.VerifFields()
+		if got.FID != want.FID || got.RootOff != want.RootOff || string(got.Start) != string(want.Start) || string(got.End) != string(want.End) {
+			c.Violate("round-trip:root-index-file", class, fmt.Sprintf("the stored root-index record of segment %d differs from what was written: stored fid=%d rootOff=%d start=%q end=%q, written fid=%d rootOff=%d start=%q end=%q",
+				want.FID, got.FID, got.RootOff, got.Start, got.End, want.FID, want.RootOff, want.Start, want.End))
+		}
+	}
 }
